@@ -15,6 +15,7 @@ import os
 import random
 import re
 import sys
+import time
 import traceback
 from fractions import Fraction
 
@@ -26,6 +27,7 @@ from .values import SArr
 
 VERIF = os.path.dirname(os.path.dirname(os.path.abspath(__file__)))
 TOL = 1e-7
+REPLAY_BUDGET_S = 240   # wall-clock budget for the native replay of ONE obligation (model + battery)
 
 
 def _parse(v):
@@ -389,8 +391,14 @@ def replay_obligation(ob, seed=0, max_battery=16):
     for b in battery(seed, max_battery):
         cands.append(dict(b, __src__="battery"))
     hist = history_of(ob.get("name"))
+    t_start = time.time()
     for cand in cands:
         src = cand.pop("__src__")
+        if time.time() - t_start > REPLAY_BUDGET_S:
+            tried.append({"source": src, "skipped": f"replay budget of {REPLAY_BUDGET_S} s for this obligation used up"})
+            break
+        if "D=3" in case.label and cand.get("N", 0) > 5:      # three-dimensional grids: keep the numeric spec evaluation affordable
+            cand["N"] = Fraction(cand["N"]) - 3
         try:
             r = run_native(c, case, cand, seed, history=hist)
         except Exception as ex:
